@@ -124,6 +124,9 @@ func runPlan(c *core.Ctx, p *plan) error {
 	if err := judgeTraces(c, st, runCfg, runKeys, runFail, fs, "search"); err != nil {
 		return err
 	}
+	if err := bindingSelfTest(c, traces[0]); err != nil {
+		return err
+	}
 	lap("validate")
 
 	// 3. TLC-simulated behaviours replayed into the real code
